@@ -18,6 +18,9 @@ the two compiled models:   ok C <those of inertiafromgeom,discardvisual,inertiag
 saved <compiler>, or -> B <1 iff the body has an <inertial> child>:<ids of its geoms joined by +, or ->:<bits of
 body_mass in the original model>:<bits of body_mass in the model compiled from the saved text, or fail> B ...
 
+Lines  s <t0> <t1> <d0> <d1> # <hex>  (variable-arity springlength writer): the springlength attribute of ./tendon/spatial
+in the saved text, "ok x<bits>[,x<bits>]" or "ok -".
+
 usage: c32_saved_attrs.py <c32_roundtrip binary> <McjfDefaults.json>
 """
 import json
@@ -89,6 +92,9 @@ def main():
         head, _, tail = l.partition(" # ")
         w = head.split(" ")
         t = tail.split(" ")
+        if w[0] == "s" and len(t) == 1:
+            reqs.append(("s", None, None, t[0]))
+            continue
         if w[0] == "i" and len(t) == 1:
             reqs.append(("i", w.count("B"), None, t[0]))
             continue
@@ -120,6 +126,13 @@ def main():
             continue
         if r[0] == "i":
             print(inertial(s, r[1]) if isinstance(s, tuple) else "err no masses reported")
+            continue
+        if r[0] == "s":
+            # the springlength attribute of the (only) spatial tendon in the saved text
+            e = ET.fromstring(s).find("./tendon/spatial")
+            a = None if e is None else e.get("springlength")
+            print("err tendon not found in the saved text" if e is None else
+                  "ok " + (",".join(bits(float(x) + 0.0) for x in a.split()) if a else "-"))
             continue
         table, tag, path, _ = r
         root = ET.fromstring(s)
